@@ -1,11 +1,88 @@
 (* C05 — Topic tree equals a topic->value-set map after any history; ops are atomic.
-   Only statements, `exact`, and Print Assumptions. *)
-From Coq Require Import List NArith.
-From Coq.Strings Require Import Byte.
-From GM Require Import Topic.MatchSpec Topic.Levels Topic.Trie Topic.TreeSpec.
-Import ListNotations.
+   Only statements, `exact`, and Print Assumptions.
 
-(* different topic strings are different keys *)
+   Trie.v is the model of topic/tree.go; TreeSpec.v is the map (association list
+   topic -> duplicate-free value list, queries through MatchSpec.matches only).
+   The theorems are about sequential histories: a method that holds the tree's mutex
+   for its whole body is one atomic step (checked syntactically on tree.go and by
+   concurrent runs under the race detector, see checks/C05.py). *)
+From Coq Require Import List NArith Bool String Permutation.
+From Coq.Strings Require Import Byte.
+From GM Require Import Topic.MatchSpec Topic.Levels Topic.Trie Topic.TrieProofs Topic.TreeSpec
+  Topic.TreeSpecProofs Topic.TrieRefineProofs Topic.TrieCanonProofs Topic.TrieTopProofs.
+Import ListNotations.
+Open Scope N_scope.
+
+(* different topic strings are different keys of the map *)
 Theorem C05_topics_are_keys : forall s1 s2, split_levels s1 = split_levels s2 -> s1 = s2.
 Proof. exact split_levels_inj. Qed.
 Print Assumptions C05_topics_are_keys.
+
+(* for every history of add / set / remove / empty / clear / reset on NUL-free topics:
+   (1) the contents of the trie are, topic by topic, a permutation of the map's value list;
+   (2) every query in scope (Get; Match/MatchFirst on a wildcard-free name; Search/SearchFirst
+       with a valid filter; All; Count) is answered as the map allows — lists up to order,
+       Count exactly (it does not de-duplicate, All does), First variants: some element, nothing iff empty;
+   (3) the printed structure String() is the one computed from the map alone. *)
+Theorem C05_refines : forall ops, forallb op_ok ops = true ->
+  (forall topic, Permutation (mget (abs (run_trie ops)) topic) (mget (run_spec ops) topic)) /\
+  (forall q, query_ok q = true -> answer_ok (run_spec ops) q (answer_trie (run_trie ops) q)) /\
+  Permutation (Shape (run_trie ops)) (s_shape (run_spec ops)).
+Proof. exact refines_all. Qed.
+Print Assumptions C05_refines.
+
+(* no history (of any operations, on any topics) leaves an empty non-root node *)
+Theorem C05_pruned : forall ops, pruned (run_trie ops) /\ prunedb (run_trie ops) = true.
+Proof. exact pruned_run_both. Qed.
+Print Assumptions C05_pruned.
+
+(* history independence: two well-formed trees without empty nodes and with the same contents
+   print the same structure (no trace of emptied branches) *)
+Theorem C05_canonical : forall t1 t2, wf t1 -> wf t2 -> pruned t1 -> pruned t2 ->
+  (forall topic, Permutation (mget (abs t1) topic) (mget (abs t2) topic)) ->
+  Permutation (Shape t1) (Shape t2).
+Proof. exact canonical_abs. Qed.
+Print Assumptions C05_canonical.
+
+(* ... in particular any two histories that leave the same map *)
+Theorem C05_history_independent : forall ops1 ops2, forallb op_ok ops1 = true -> forallb op_ok ops2 = true ->
+  (forall topic, Permutation (mget (run_spec ops1) topic) (mget (run_spec ops2) topic)) ->
+  Permutation (Shape (run_trie ops1)) (Shape (run_trie ops2)) /\
+  (forall p, Permutation (tget p (run_trie ops1)) (tget p (run_trie ops2))).
+Proof. exact history_independent. Qed.
+Print Assumptions C05_history_independent.
+
+(* operations on different topics, and Clear against operations on other values, commute on
+   the map: the concurrent runs of the harness (disjoint topics and values per goroutine) have
+   one possible final content and one possible answer to each goroutine's own queries *)
+Theorem C05_commute : forall m o1 o2, mwf m -> independent o1 o2 ->
+  map_equiv (apply_spec (apply_spec m o1) o2) (apply_spec (apply_spec m o2) o1).
+Proof. exact spec_commute. Qed.
+Print Assumptions C05_commute.
+
+(* the boolean checker the model runner applies to the implementation's answers is the relation of C05_refines *)
+Theorem C05_checker_is_relation : forall m q a, answer_okb m q a = true <-> answer_ok m q a.
+Proof. exact answer_okb_iff. Qed.
+Print Assumptions C05_checker_is_relation.
+
+(* non-vacuity *)
+Definition b (s : string) : list byte := list_byte_of_string s.
+Definition ex_ops : list op :=
+  [OAdd (b "a/b") 1; OAdd (b "a/b") 2; OAdd (b "a/b") 3; OAdd (b "a/+") 1; OSet (b "x/y/z") 9; ORemove (b "a/b") 1;
+   OEmpty (b "x/y/z"); OAdd (b "#") 2; OClear 3].
+Example C05_nonvacuous :
+  forallb op_ok ex_ops = true /\
+  Get (run_trie ex_ops) (b "a/b") = [2] /\
+  Get (run_trie (removelast ex_ops)) (b "a/b") = [3; 2] /\          (* the swap-delete order *)
+  run_spec ex_ops = [([[x23]], [2]); ([[x61]; [x62]], [2]); ([[x61]; [x2b]], [1])] /\
+  All (run_trie ex_ops) = [2; 1] /\ Count (run_trie ex_ops) = 3 /\
+  Shape (run_trie ex_ops) = [([[x61]], 0); ([[x61]; [x62]], 1); ([[x61]; [x2b]], 1); ([[x23]], 1)] /\
+  wf (run_trie ex_ops) /\ pruned (run_trie ex_ops) /\
+  mwf (run_spec ex_ops) /\ independent (OAdd (b "a") 1) (OClear 2) /\ independent (OSet (b "a") 1) (OEmpty (b "a/b")).
+Proof.
+  split; [vm_compute; reflexivity|]. split; [vm_compute; reflexivity|]. split; [vm_compute; reflexivity|].
+  split; [vm_compute; reflexivity|]. split; [vm_compute; reflexivity|]. split; [vm_compute; reflexivity|].
+  split; [vm_compute; reflexivity|].
+  split; [apply wf_run|]. split; [apply pruned_run|]. split; [apply mwf_run|].
+  split; [simpl; discriminate | simpl; discriminate].
+Qed.
